@@ -26,7 +26,8 @@ func NewHierarchyFilter(delimiter []byte, maxLevels int, splitInput bool) *Hiera
 }
 
 func (s *HierarchyFilter) Filter(input analysis.TokenStream) analysis.TokenStream {
-	rv := make(analysis.TokenStream, 0, s.maxLevels)
+	// maxLevels defaults to math.MaxInt64: it cannot be used as a capacity
+	rv := make(analysis.TokenStream, 0, min(s.maxLevels, len(input)))
 
 	var soFar [][]byte
 	for _, token := range input {
